@@ -393,10 +393,9 @@ impl Lane for C20 {
                 if ga == gc || gc == ga {
                     vs.push(Violation::new("different_digraphs_compare_equal", &eq_name, &format!("neighbour_{how}"), d2()));
                 }
-                let (x, y) = (ga.cmp(&gc), gc.cmp(&ga));
-                if x == Ordering::Equal || y == Ordering::Equal || x != y.reverse() {
-                    vs.push(Violation::new("ordering_inconsistent", &format!("{rname}::cmp"), &format!("neighbour_{how}"), format!("cmp(A,C) = {x:?}, cmp(C,A) = {y:?}; {}", d2())));
-                }
+                // (the property speaks about == for different digraphs, and about cmp only for equal ones:
+                // nothing is asserted about cmp between different digraphs)
+                let _ = &gc;
             }
         }
         // clone_from into existing values (of the same and of other orders, with and without arcs) must
